@@ -17,13 +17,15 @@ BASE_W = {
     "C12": {"rollback": 30, "reset": 4, "rollback_over": 15, "shadow_after_rollback": 80, "mask": 50,
             "fft_side": 50, "acc": 40, "ffb": 30, "fft": 20, "validate": 30, "status": 30, "clone_mask": 10,
             "commit_batch": 15, "commit_try": 10, "consume_ff": 8, "drop_shadow": 25, "mask_or_eos": 10},
+    "C03": {"mask": 100, "acc": 100, "status": 30, "validate": 10, "commit_batch": 10, "commit_try": 10, "fft_side": 100,
+            "rollback": 4, "ffb": 20},
     "C10": {"mask": 100, "acc": 20, "validate": 10, "rollback": 5, "commit_batch": 10},
     "C18": {"mask": 50, "acc": 50, "status": 60, "mask_or_eos": 40, "after_stop": 100, "bad_token": 250,
             "rollback_over": 80, "rollback": 10, "validate": 30, "validate_all": 20, "commit_try": 25,
             "commit_batch": 15, "fft_side": 100, "consume_each": 10, "each_max": 300},
 }
 
-VIEW = {"C01": "all", "C18": "all", "C10": "func", "C11": "func", "C12": "func", "C13": "all", "C14": "func"}
+VIEW = {"C03": "all", "C01": "all", "C18": "all", "C10": "func", "C11": "func", "C12": "func", "C13": "all", "C14": "func"}
 
 
 def hints_for(g):
@@ -253,12 +255,30 @@ def check_rel(prop, tier, seed, n_quick, n_thorough, grammars=None, rule="", **k
     return res
 
 
+def random_cfg_grammars(seed, n):
+    """Lark texts of random grammars of the C05 fragment (many short terminals: tokens of a
+    language-derived vocabulary then span three and more lexemes)"""
+    from . import cfggen
+    rng = random.Random(f"cfgtext-{seed}")
+    out = []
+    tries = 0
+    while len(out) < n and tries < n * 40:
+        tries += 1
+        g = cfggen.rand_grammar(rng)
+        if cfggen.is_reduced(g):
+            out.append((f"rcfg{len(out)}", {"kind": "lark", "text": cfggen.lark_text(g)}))
+    for name, g in cfggen.HAND:
+        out.append(("hand:" + name, {"kind": "lark", "text": cfggen.lark_text(g)}))
+    return out
+
+
 def check_split(prop, tier, seed, n_quick, n_thorough):
     """C02 / C13: lock-step single-byte vs multi-byte engines (harness split, spec/Trace_Split.tla)"""
     res = core.Result(prop, tier, seed)
     rng = random.Random(f"{prop}-split-{seed}")
     n = n_quick if tier == "quick" else n_thorough
     gs = [g for g in corpus.all_grammars() if g[0] not in ("tok_refs", "tok_range")]
+    gs = gs + random_cfg_grammars(seed, 40 if tier == "quick" else 600)
     if prop == "C13":
         # forced text: fixed keys, consts, enums sharing prefixes, literal-heavy Lark grammars
         pref = [g for g in gs if g[0].startswith("js:") or g[0] in ("forced_then_free", "alt_prefixes", "keywords", "fixed",
